@@ -772,7 +772,7 @@ def get_prior(p, q):
     return _priors[(p, q)]
 
 
-def make_samples(rng, p, q, n=6):
+def make_samples(rng, p, q, n=6, linear=False):
     import astropy.units as u
     import thejoker as tj
     s = tj.JokerSamples(poly_trend=p, n_offsets=q)
@@ -781,6 +781,12 @@ def make_samples(rng, p, q, n=6):
     s["omega"] = rng.uniform(0, 2 * np.pi, n) * u.rad
     s["M0"] = rng.uniform(0, 2 * np.pi, n) * u.rad
     s["s"] = np.zeros(n) * u.m / u.s
+    if linear:      # setup_mcmc reads every prior parameter from the sample
+        s["K"] = rng.normal(0, 5, n) * u.km / u.s
+        for l in range(max(p, 0)):
+            s[f"v{l}"] = rng.normal(0, 1, n) * u.km / u.s / u.day ** l
+        for j in range(1, q + 1):
+            s[f"dv0_{j}"] = rng.normal(0, 1, n) * u.km / u.s
     return s
 
 
@@ -826,10 +832,11 @@ def data_case(ctx, g, rng):
     entry = str(rng.choice(["marginal_ln_likelihood", "marginal_ln_likelihood:inmem", "rejection_sample", "setup_mcmc", "helper"],
                            p=[0.3, 0.2, 0.25, 0.1, 0.15]))
     ok, why = data_oracle(form, srcs, p, q)
-    if entry == "setup_mcmc" and ok and not ctx.thorough:
-        entry = "helper"      # building the MCMC graph is slow; accepted inputs go through the cheap entry in the quick tier
+    if entry == "setup_mcmc" and ok and g["index"] % 4 != 0:
+        entry = "helper"      # building the MCMC graph is slow: only every 4th admissible case really builds it (same rule in
+        #                       both tiers, so that a replay does not depend on the tier)
     prior = get_prior(p, q)
-    samples = make_samples(rng, p, q)
+    samples = make_samples(rng, p, q, linear=(entry == "setup_mcmc"))
     objs = [make_source(rng, s) for s in srcs]
     if form == "single":
         data = make_source(rng, "rv")
@@ -853,7 +860,8 @@ def data_case(ctx, g, rng):
         elif entry == "rejection_sample":
             joker.rejection_sample(data, samples)
         elif entry == "setup_mcmc":
-            joker.setup_mcmc(data, samples)
+            with prior.model:        # documented usage: inside the prior's model context
+                joker.setup_mcmc(data, samples)
         else:
             joker._make_joker_helper(data)
         impl = ("ok", None)
@@ -924,11 +932,20 @@ def init_case(ctx, g, rng):
 # ------------------------------------------------------------------------------------------------
 
 
+def setup(ctx):
+    import glob
+    import os
+    import core
+    if not ctx.replay_mode:      # stale replay files of an earlier run with this seed would be confusing
+        for f in glob.glob(os.path.join(core.VERIF, "replays", ctx.prop, f"{ctx.seed}-*.json")):
+            os.remove(f)
+
+
 def plan(ctx):
-    cases = [("grid", i) for i in range(8 if ctx.thorough else 3)]
-    cases += [("random", i) for i in range(1500 if ctx.thorough else 150)]
-    cases += [("default", i) for i in range(8 if ctx.thorough else 2)]
-    cases += [("data", i) for i in range(1500 if ctx.thorough else 220)]
+    cases = [("grid", i) for i in range(16 if ctx.thorough else 3)]
+    cases += [("random", i) for i in range(4000 if ctx.thorough else 150)]
+    cases += [("default", i) for i in range(12 if ctx.thorough else 2)]
+    cases += [("data", i) for i in range(4000 if ctx.thorough else 220)]
     cases += [("init", 0)]
     return cases
 
